@@ -5,6 +5,7 @@ cd "$(dirname "$0")/.."
 export CARGO_NET_OFFLINE=true
 python3 tools/extract_constants.py
 python3 tools/extract_variants.py
+python3 tools/rs2lean.py
 (cd lean && lake build WW wwdriver)
 [ -f harness/Cargo.lock ] || cp /repo/Cargo.lock harness/Cargo.lock
 (cd harness && cargo build --offline)
